@@ -854,6 +854,7 @@ func c19DerivedIndexes(r *Run) {
 
 // c19ExportShape (C19 R8): what the export writes can be imported again; store keys are decoded with the module's own functions.
 func c19ExportShape(r *Run) {
+	c19ForeignStrings(r)
 	P := r.P
 	r.Rule("R8", "PATH.export-is-importable: (a) the EVM module's ExportGenesis lists an account only over the edge on which its address is 20 bytes long — the bank keeper creates an EthAccount for any recipient address length, EthAddress() crops to the last 20 bytes, and InitGenesis looks the cropped address up and panics ('account not found'): one transfer to a 32-byte address made every later export un-importable; (b) the zero-height export decodes validator store keys with the staking module's key function, never by slicing iter.Key() at a fixed offset (keys are length-prefixed since SDK 0.43: the hand-sliced address is 21 bytes and no validator is ever found)")
 	if eg, ok := P.FnOK("x/evm.ExportGenesis"); ok {
@@ -915,4 +916,46 @@ func c19ExportShape(r *Run) {
 		}
 	}
 	r.Floor("R8", "store-key decodings in app/export.go", nK, 1)
+}
+
+// c19ForeignStrings (C19 R9): strings a contract controls are made valid UTF-8 before they enter exported state.
+func c19ForeignStrings(r *Run) {
+	P := r.P
+	r.Rule("R9", "FLOW.contract-controlled-strings-are-valid-utf8: the binary stores keep arbitrary bytes, the exported genesis is JSON and its encoder replaces invalid UTF-8 with U+FFFD — the importing chain then stores other bytes than the exporting one held. The strings of a registered ERC20 (name(), symbol()) are whatever the contract returns; wherever CreateCoinMetadata stores one of them into the bank metadata it passes a sanitiser first (SanitizeERC20Name, strings.ToValidUTF8)")
+	fn, ok := P.FnOK("(x/erc20/keeper.Keeper).CreateCoinMetadata")
+	if !ok {
+		r.Bad("R9", "anchor/CreateCoinMetadata", "", "not found")
+		return
+	}
+	n := 0
+	seen := map[string]int{}
+	eachInstr(fn, func(in ssa.Instruction) {
+		st, ok := in.(*ssa.Store)
+		if !ok {
+			return
+		}
+		sn, f, ok := fieldOfAddr(st.Addr)
+		if !ok || !(sn == "Metadata" || sn == "DenomUnit") {
+			return
+		}
+		if b, isB := st.Val.Type().Underlying().(*types.Basic); !isB || b.Kind() != types.String {
+			return
+		}
+		sl := backSlice(st.Val)
+		src := ""
+		for _, ff := range []string{"Name", "Symbol"} {
+			if sl.HasField("ERC20Data", ff) {
+				src = ff
+			}
+		}
+		if src == "" {
+			return
+		}
+		n++
+		seen[sn+"."+f]++
+		okSan := sl.HasCall(func(g CallInfo) bool { return g.Name == "SanitizeERC20Name" || g.Name == "ToValidUTF8" })
+		r.Check(okSan, "R9", fmt.Sprintf("%s#%s.%s-%d-sanitised", fnID(fn), sn, f, seen[sn+"."+f]), P.Pos(instrPos(in)), "the contract's "+src+" passes a sanitiser",
+			"the contract-controlled string ERC20Data."+src+" is stored into "+sn+"."+f+" as returned: a symbol with invalid UTF-8 bytes is exported as U+FFFD and re-imported as other bytes than the exporting chain holds (metadata differs after export → InitGenesis)")
+	})
+	r.Floor("R9", "contract strings stored into bank metadata", n, 2)
 }
